@@ -16,7 +16,7 @@ let rec pairs = function a :: b :: r -> (nz a, nz b) :: pairs r | _ -> []
 type elem = Nodef | Mop of string * op        (* kind token, model op *)
 
 type case = {
-  mix : string; fccap : nat; epoch0 : n; vals0 : (n * n) list; pol : ((n * n) * (n * n) list) list;
+  mix : string; fccap : nat; epoch0 : n; listen_mode : int; listen_n : int; vals0 : (n * n) list; pol : ((n * n) * (n * n) list) list;
   main : elem list; alt : elem list option;
   main_toks : string list list; alt_toks : string list list;
   name_of : (string, int) Hashtbl.t; id_of : (int, n) Hashtbl.t;
@@ -26,7 +26,7 @@ let alt_groups (mix : string) (groups : string list list) : string list list opt
   let kind g = match g with k :: _ -> k | [] -> "" in
   match mix with
   | "C07" -> Some (List.filter (fun g -> kind g <> "b" && kind g <> "X" && kind g <> "Y") groups)
-  | "C08" -> Some (List.filter (fun g -> kind g <> "R") groups)
+  | "C08" -> Some (List.filter (fun g -> kind g <> "R" && kind g <> "r") groups)
   | "C09" ->
     let rec split pre = function
       | [] -> None
@@ -46,8 +46,11 @@ let parse (inp : string list) : case =
     | _ -> "?", nat_of_int 200, nz "1") in
   let name_of = Hashtbl.create 64 and id_of = Hashtbl.create 64 in
   let vals0 = ref [] and pol = ref [] in
+  let lmode = ref 0 and ln = ref 0 in
   let body = List.filter (fun g -> match g with
     | [] -> false
+    | "L" :: m :: k :: _ -> lmode := int_of_string m; ln := int_of_string k; false
+    | "L" :: _ -> false
     | "V" :: r -> vals0 := pairs r; false
     | "S" :: ep :: blk :: r -> pol := ((nz ep, nz blk), pairs r) :: !pol; false
     | "S" :: _ -> false
@@ -97,6 +100,7 @@ let parse (inp : string list) : case =
          | Some e -> push g (Mop (k, OpB e))
          | None -> push g Nodef)
       | ["R"] -> push g (Mop ("R", OpR))
+      | ["r"] -> push g (Mop ("R", OpR))
       | "RESET" :: ep :: r -> push g (Mop ("RESET", OpReset (nz ep, pairs r)))
       | ["M"; n] ->
         (match Hashtbl.find_opt lid (int_of_string n) with
@@ -114,7 +118,7 @@ let parse (inp : string list) : case =
   let alt, alt_toks = (match alt_groups mix body with
     | Some ag -> let a, t = elems_of ag in (Some a, t)
     | None -> (None, [])) in
-  { mix; fccap; epoch0; vals0 = !vals0; pol = List.rev !pol; main; alt; main_toks; alt_toks; name_of; id_of }
+  { mix; fccap; epoch0; listen_mode = !lmode; listen_n = !ln; vals0 = !vals0; pol = List.rev !pol; main; alt; main_toks; alt_toks; name_of; id_of }
 
 (* ---------- printing model observations ---------- *)
 let err_tok = function
@@ -129,10 +133,14 @@ let is_fatal = function EWrongFrame -> false | _ -> true
 
 let evname c id = match Hashtbl.find_opt c.name_of (Z.to_string (z_of_n id)) with
   | Some n -> string_of_int n | None -> "?" ^ Z.to_string (z_of_n id)
+let listens mode n k = match mode with 1 -> k >= n | 2 -> k mod 2 = 1 | _ -> true
+let block_counter = ref 0      (* blocks seen so far in the run being printed (application-lifetime counter) *)
 let block_toks c (b : block) =
+  incr block_counter;
+  if c.listen_mode = 3 then [] else      (* the application has no BeginBlock: it is told nothing *)
   [ "A" ^ evname c b.b_atropos;
     "c" ^ String.concat "," (List.map tok_of_n b.b_cheaters);
-    "d" ^ String.concat "," (List.map (evname c) b.b_delivered);
+    (if listens c.listen_mode c.listen_n !block_counter then "d" ^ String.concat "," (List.map (evname c) b.b_delivered) else "dX");
     (match b.b_seal with
      | None -> "-"
      | Some v -> "S" ^ String.concat "," (List.map (fun (i, w) -> tok_of_n i ^ ":" ^ tok_of_n w) v)) ]
@@ -161,8 +169,11 @@ let obs_toks c (o : obs) : string list * bool (*dead*) =
 
 (* run the model over one element list; returns one token group per element that produced output *)
 let model_run c (smp : n -> n list option) (els : elem list) : string list list =
+  block_counter := 0;
   let ops = List.filter_map (function Mop (_, o) -> Some o | Nodef -> None) els in
-  let obs = ref (Model.run c.fccap c.pol smp (start c.epoch0 c.vals0) ops) in
+  (* listen mode 3: no BeginBlock, hence no EndBlock either: no sealing rule applies *)
+  let pol = if c.listen_mode = 3 then [] else c.pol in
+  let obs = ref (Model.run c.fccap pol smp (start c.epoch0 c.vals0) ops) in
   let dead = ref false in
   List.filter_map (fun el ->
     if !dead then None else
@@ -187,7 +198,7 @@ let rec parse_blocks c toks : block list * string list =
                                      && String.length ch > 0 && ch.[0] = 'c' && String.length dl > 0 && dl.[0] = 'd' ->
     let b = { b_frame = N0; b_atropos = id_of_name c (tl1 a);
               b_cheaters = List.map nz (split_commas (tl1 ch));
-              b_delivered = List.map (id_of_name c) (split_commas (tl1 dl));
+              b_delivered = (if dl = "dX" then [n_of_z (zpow2 256)] else List.map (id_of_name c) (split_commas (tl1 dl)));
               b_seal = (if seal = "-" then None else
                 Some (List.map (fun p -> match String.split_on_char ':' p with
                                   | [i; w] -> (nz i, nz w) | _ -> (N0, N0)) (split_commas (tl1 seal)))) } in
@@ -348,10 +359,81 @@ let eval_with (pid : string) (smp : n -> n list option) inp obs : verdict =
   let flat gs = List.concat (List.mapi (fun i g -> if i = 0 then g else ";" :: g) gs) in
   let model_obs = flat mm @ (match c.alt with Some _ -> "||" :: flat ma | None -> []) in
   let ig, iag = split_obs obs in
-  let si = spec_on pid c ig iag in
-  let sm = spec_on pid c mm ma in
+  let blind = { ok = true; nontriv = false; why = "no BeginBlock: nothing reported" } in
+  let si = if c.listen_mode = 3 then blind else spec_on pid c ig iag in
+  let sm = if c.listen_mode = 3 then blind else spec_on pid c mm ma in
   let defs_ok = (pid <> "C04") || fc_defs_agree c (pair_trace c.main mm) in
   { default_verdict with model_obs; spec_ok = Some si.ok; model_spec_ok = sm.ok && defs_ok; nontrivial = si.nontriv;
     note = (if not defs_ok then "fc_graph <> FcSpec.fc_spec on this DAG" else if si.ok then "" else "spec(" ^ si.why ^ ") fails on impl") }
 
-let main (pid : string) = Drv.run (eval_with pid sample)
+(* ---------- STORE glue cases (model/AbftStore.v): the small abft.Store codecs driven directly ----------
+   input  : <mix> STORE rootsNum rootsFrames ; CF e f | GC e | LD f | GL | ES ep id w .. | GE | AR spf f v id | GR f
+   output : ok | skip | nodef | f<n> | l<live> l<fresh> | e<ep> id:w .. / e<ep> id:w .. | g v:id .. *)
+let u32 s = let z = Z.of_string s in if Z.sign z < 0 || Z.geq z (zpow2 32) then failwith "range" else n_of_z z
+let u256 s = let z = Z.of_string s in if Z.sign z < 0 || Z.geq z (zpow2 256) then failwith "range" else n_of_z z
+let rec pairs32 = function a :: b :: r -> (u32 a, u32 b) :: pairs32 r | [] -> [] | _ -> failwith "odd"
+let store_op (g : string list) : sop option =
+  try (match g with
+    | ["CF"; e; f] -> Some (SoCF (u256 e, u32 f))
+    | ["GC"; e] -> Some (SoGC (u256 e))
+    | ["LD"; f] -> Some (SoLD (u32 f))
+    | ["GL"] -> Some SoGL
+    | "ES" :: ep :: r -> Some (SoES (u32 ep, pairs32 r))
+    | ["GE"] -> Some SoGE
+    | ["AR"; spf; f; v; id] -> Some (SoAR (u32 spf, u32 f, u32 v, u256 id))
+    | ["GR"; f] -> Some (SoGR (u32 f))
+    | _ -> None)
+  with _ -> None
+let pw l = List.map (fun (i, w) -> tok_of_n i ^ ":" ^ tok_of_n w) l
+let sobs_toks = function
+  | SbOk -> ["ok"] | SbSkip -> ["skip"]
+  | SbN x -> ["N" ^ tok_of_n x]
+  | SbES (ep, v) -> let h = ("e" ^ tok_of_n ep) :: pw v in h @ ["/"] @ h
+  | SbRoots l -> "g" :: pw l
+let sobs_print (o : sop) (b : sobs) = match o, b with
+  | SoGC _, SbN x -> ["f" ^ tok_of_n x]
+  | SoGL, SbN x -> ["l" ^ tok_of_n x; "l" ^ tok_of_n x]
+  | _ -> sobs_toks b
+let unpw l = List.map (fun p -> match String.split_on_char ':' p with [i; w] -> (nz i, nz w) | _ -> raise Bad_obs) l
+let sobs_parse (o : sop) (g : string list) : sobs =
+  match o, g with
+  | _, ["ok"] -> SbOk
+  | _, ["skip"] -> SbSkip
+  | SoGC _, [f] when String.length f > 1 && f.[0] = 'f' -> SbN (nz (tl1 f))
+  | SoGL, [a; b] when a = b && String.length a > 1 && a.[0] = 'l' -> SbN (nz (tl1 a))
+  | SoGE, _ ->
+    (match split_on "/" g with
+     | [(e :: v); h2] when (e :: v) = h2 && String.length e > 1 && e.[0] = 'e' -> SbES (nz (tl1 e), unpw v)
+     | _ -> raise Bad_obs)
+  | SoGR _, "g" :: r -> SbRoots (unpw r)
+  | _ -> raise Bad_obs
+let is_store inp = match inp with _ :: "STORE" :: _ -> true | _ -> false
+let eval_store inp obs : verdict =
+  let groups = split_on ";" inp in
+  let els = List.map store_op (List.filter (fun g -> g <> []) (List.tl groups)) in
+  let ops = List.filter_map (fun x -> x) els in
+  let mtr = List.combine ops (srun store_start ops) in
+  let mo = ref mtr in
+  let mg = List.map (function
+    | None -> ["nodef"]
+    | Some _ -> (match !mo with (o, b) :: r -> mo := r; sobs_print o b | [] -> ["?"])) els in
+  let flat gs = List.concat (List.mapi (fun i g -> if i = 0 then g else ";" :: g) gs) in
+  let ig = if obs = [] then [] else split_on ";" obs in
+  let spec_ok =
+    (try
+      let rec pair es gs = match es, gs with
+        | [], [] -> []
+        | None :: er, g :: gr -> if g = ["nodef"] then pair er gr else raise Bad_obs
+        | Some o :: er, g :: gr -> (o, sobs_parse o g) :: pair er gr
+        | _ -> raise Bad_obs in
+      store_trace astore_start (pair els ig)
+    with Bad_obs | Failure _ | Invalid_argument _ -> false) in
+  let big = List.exists (function
+    | SoCF (_, f) | SoLD f -> Z.geq (z_of_n f) (Z.of_int 256)
+    | SoAR (_, f, v, _) -> Z.geq (z_of_n f) (Z.of_int 256) || Z.geq (z_of_n v) (Z.of_int 256)
+    | SoES (ep, r) -> Z.geq (z_of_n ep) (Z.of_int 256) || List.exists (fun (i, w) -> Z.geq (z_of_n i) (Z.of_int 256) || Z.geq (z_of_n w) (Z.of_int 256)) r
+    | _ -> false) ops in
+  { default_verdict with model_obs = flat mg; spec_ok = Some spec_ok; model_spec_ok = store_trace astore_start mtr; nontrivial = big;
+    note = (if spec_ok then "" else "spec(store_trace: every read returns what was written) fails on impl") }
+
+let main (pid : string) = Drv.run (fun inp obs -> if is_store inp then eval_store inp obs else eval_with pid sample inp obs)
